@@ -27,6 +27,9 @@ func multiDocs(r *Rng) [][]byte {
 	out = append(out, []byte("JSIGHT 0.3\nMACRO @a\n(\n  PASTE @b\n)\nMACRO @b\n(\n  PASTE @a\n)\nMACRO @c\n(\n  PASTE @d\n)\nMACRO @d\n(\n  PASTE @c\n)\n"))
 	// Path schema with several unused properties
 	out = append(out, []byte("JSIGHT 0.3\nURL /a/{id}\n  Path\n  {\"id\": 1, \"zz\": 2, \"aa\": 3, \"mm\": 4}\n  GET\n    200 any\n"))
+	// one path with two different duplicated parameters / two empty ones
+	out = append(out, []byte("JSIGHT 0.3\nURL /c/{id}/{name}/f/{id}/{name}\n  GET\n    200 any\n"))
+	out = append(out, []byte("JSIGHT 0.3\nGET /c/{a}/{b}/{c}/{a}/{b}/{c}\n  200 any\n"))
 	// several enums, several undefined enum uses
 	out = append(out, []byte("JSIGHT 0.3\nENUM @e1\n[1]\nENUM @e2\n[2]\nENUM @e3\n[3]\nTYPE @t\n{\n  \"a\": 1, // {enum: @e1}\n  \"b\": 2, // {enum: @e2}\n  \"c\": 3 // {enum: @e3}\n}\n"))
 	out = append(out, []byte("JSIGHT 0.3\nENUM @e1\n[1]\nTYPE @t\n{\n  \"a\": 1, // {enum: @x1}\n  \"b\": 2 // {enum: @x2}\n}\nTYPE @u\n{\n  \"a\": 1, // {enum: @x3}\n  \"b\": 2 // {enum: @x4}\n}\n"))
